@@ -413,5 +413,30 @@ def run(ck):
                 ck.violation(rp, known_id='K1')
         except linearfit.SingularMatrixError:
             pass
+    # the same degenerate configurations through the public entry point iter_linear_fit, which centres the coordinates
+    # on the plain mean of the retained sources first (exact for coincident dyadic positions, whatever the weights):
+    # every geometry that needs two or more distinct sources must raise
+    for t in range(ck.n(60, 600)):
+        n = rng.randrange(3, 10) if t % 2 else rng.randrange(7, 12)
+        c = [float(rng.randrange(-64, 65)) / 8.0, float(rng.randrange(-64, 65)) / 8.0]
+        uv = np.array([c] * n)
+        xy = np.array([[float(rng.randrange(-8, 9)), float(rng.randrange(-8, 9))] for _ in range(n)])
+        # (rshift is not included: with the scale fixed a single position determines the shift and leaves only the
+        #  rotation open; the code returns rotation 0, one of the optima - see C06)
+        geom = ['rscale', 'general'][t % 2]
+        wkind = ['wxy', 'wuv', 'both', 'none'][(t // 2) % 4]
+        mk = lambda: np.array([rng.choice([1.0 / k_ for k_ in range(1, 8)] + [0.3, 0.7, 2.0, 3.0]) for _ in range(n)])  # noqa: E731
+        wxy = mk() if wkind in ('wxy', 'both') else None
+        wuv = mk() if wkind in ('wuv', 'both') else None
+        ck.search_evaluations += 1
+        ck.count('iter_linear_fit_coincident', '%s/%s' % (geom, wkind))
+        try:
+            fit = linearfit.iter_linear_fit(xy.copy(), uv.copy(), wxy, wuv, fitgeom=geom, nclip=0)
+            ck.violation({'kind': 'iter_linear_fit-on-coincident-points-did-not-raise', 'fitgeom': geom, 'uv': uv.tolist(),
+                          'xy': xy.tolist(), 'wxy': None if wxy is None else wxy.tolist(),
+                          'wuv': None if wuv is None else wuv.tolist(), 'matrix': np.asarray(fit['matrix']).tolist(),
+                          'expected': 'SingularMatrixError (all retained sources at one position)'})
+        except linearfit.SingularMatrixError:
+            pass
     ck.trusted += ['K1 classification of singular inputs uses a python exact-rational mirror of the forward '
                    'elimination (representability of intermediates with a 64-bit significand)']
